@@ -2,6 +2,7 @@ package props
 
 import (
 	"fmt"
+	"strings"
 
 	"github.com/paulmach/osm"
 
@@ -62,53 +63,144 @@ func c12Shape(h *hist.H, i int, us osm.Updates) string {
 	return fmt.Sprintf("%s/%s/same-second=%s/indices=%s/%s", kind, h.Regime, c12Bucket(same), c12Bucket(maxOcc), big)
 }
 
-// c12One annotates one input K times and evaluates the oracles. key is "" for generated
-// inputs (the key is then built from the shape) or the enumerated input's own name.
-func c12One(res *fw.Result, h *hist.H, inputID string, enumKey string) {
-	var ways0 osm.Ways
-	var rels0 osm.Relations
-	if h.Way {
-		ways0 = h.BuildWays()
-	} else {
-		rels0 = h.BuildRelations()
+// c12Input is one input of a session.
+type c12Input struct {
+	h       *hist.H
+	id      string // identifies the input in the map-order set
+	enumKey string // violation key suffix of an enumerated input ("" = use the shape)
+}
+
+type c12Obs struct {
+	run    *hist.Run
+	dump   string   // canonical dump taken the moment the call returned
+	order  []string // order finding per parent version, taken the moment the call returned
+	nUpd   []int
+	fresh  bool // the input was rebuilt from the model (otherwise an eq.Clone of the first build)
+	seqNo  int  // position of the call in the session
+	listTx []string
+}
+
+// c12Session annotates every input K = 12 times in one process: round k visits the inputs in
+// a (for k > 0 shuffled) order, so that other inputs run between two runs of one input; even
+// rounds run on an eq.Clone of the input built first, odd rounds on an independently rebuilt
+// equal input. Update order and the canonical dump are taken immediately after each call
+// returns. Then the oracles are evaluated per input.
+func c12Session(res *fw.Result, ins []c12Input, r *gen.R) {
+	n := len(ins)
+	ways0 := make([]osm.Ways, n)
+	rels0 := make([]osm.Relations, n)
+	for i, in := range ins {
+		if in.h.Way {
+			ways0[i] = in.h.BuildWays()
+		} else {
+			rels0[i] = in.h.BuildRelations()
+		}
 	}
-	runs := make([]*hist.Run, c12K)
-	dumps := make([]string, c12K)
+	obs := make([][]*c12Obs, n)
+	seq := 0
+	for k := 0; k < c12K; k++ {
+		order := make([]int, n)
+		for i := range order {
+			order[i] = i
+		}
+		if k > 0 && r != nil {
+			r.Shuffle(n, func(a, b int) { order[a], order[b] = order[b], order[a] })
+		}
+		for _, i := range order {
+			h := ins[i].h
+			o := &c12Obs{fresh: k%2 == 1, seqNo: seq}
+			seq++
+			if o.fresh {
+				o.run = h.Execute()
+			} else {
+				o.run = h.ExecuteOn(eq.Clone(ways0[i]), eq.Clone(rels0[i]))
+			}
+			// observe at once: the result must be complete and ordered when the call returns
+			if o.run.Panic == "" && o.run.Err == nil {
+				for pi := range h.Parents {
+					var us osm.Updates
+					if h.Way {
+						us = o.run.Ways[pi].Updates
+					} else {
+						us = o.run.Relations[pi].Updates
+					}
+					f := hist.OrderFinding(us)
+					o.order = append(o.order, f)
+					o.nUpd = append(o.nUpd, len(us))
+					tx := ""
+					if f != "" {
+						tx = hist.UpdatesText(us)
+						if len(tx) > 1500 {
+							tx = tx[:1500] + " ..."
+						}
+					}
+					o.listTx = append(o.listTx, tx)
+				}
+				if h.Way {
+					o.dump = eq.Dump(o.run.Ways)
+				} else {
+					o.dump = eq.Dump(o.run.Relations)
+				}
+			}
+			res.Event(int64(o.run.NCalls))
+			obs[i] = append(obs[i], o)
+		}
+	}
+	for i, in := range ins {
+		c12Judge(res, in, obs[i])
+	}
+}
+
+// c12One runs a session with a single input.
+func c12One(res *fw.Result, h *hist.H, inputID string, enumKey string) {
+	c12Session(res, []c12Input{{h: h, id: inputID, enumKey: enumKey}}, nil)
+}
+
+func c12SizeClass(n int) string {
+	switch {
+	case n <= 12:
+		return "updates<=12"
+	case n < 100:
+		return "updates>12"
+	}
+	return "updates>=100"
+}
+
+// c12Judge evaluates the oracles on the K observations of one input.
+func c12Judge(res *fw.Result, in c12Input, obs []*c12Obs) {
+	h, inputID, enumKey := in.h, in.id, in.enumKey
 	orders := map[string]bool{}
 	nOK, nErr := 0, 0
 	maxUpd, sameSecond := 0, 0
 	detail := func(extra map[string]any) map[string]any {
 		d := map[string]any{"history": h}
+		if len(fw.JSON(h)) > 60000 {
+			d["history"] = "omitted (large); regenerate from the case: " + h.Shape()
+		}
 		for k, v := range extra {
 			d[k] = v
 		}
 		return d
 	}
-	for k := 0; k < c12K; k++ {
-		run := h.ExecuteOn(eq.Clone(ways0), eq.Clone(rels0))
-		runs[k] = run
-		res.Event(int64(run.NCalls))
-		orders[run.Order] = true
-		if run.Panic != "" {
-			res.Violate("C12/panic", "annotation panicked: "+run.Panic, detail(nil))
+	runs := make([]*hist.Run, len(obs))
+	for k, o := range obs {
+		runs[k] = o.run
+		orders[o.run.Order] = true
+		if o.run.Panic != "" {
+			res.Violate("C12/panic", "annotation panicked: "+o.run.Panic, detail(nil))
 			return
 		}
-		if run.Err != nil {
+		if o.run.Err != nil {
 			nErr++
-			continue
-		}
-		nOK++
-		if h.Way {
-			dumps[k] = eq.Dump(run.Ways)
 		} else {
-			dumps[k] = eq.Dump(run.Relations)
+			nOK++
 		}
 	}
 	for o := range orders {
 		res.Put("map_orders", inputID+":"+o)
 	}
 	res.Add("inputs", 1)
-	res.Add("runs", c12K)
+	res.Add("runs", int64(len(obs)))
 	res.SetMax("map_orders_per_input", int64(len(orders)))
 	if len(orders) > 1 {
 		res.Add("inputs_with_several_map_orders", 1)
@@ -119,63 +211,89 @@ func c12One(res *fw.Result, h *hist.H, inputID string, enumKey string) {
 	if h.Way {
 		kind = "way"
 	}
+	shapeOf := func(i int, us osm.Updates) string {
+		if enumKey != "" {
+			return enumKey
+		}
+		s := c12Shape(h, i, us)
+		if len(us) >= 100 {
+			s = strings.Replace(s, "updates>12", "updates>=100", 1)
+		}
+		if h.Polygon {
+			s += "/polygon"
+		}
+		return s
+	}
 	outcome := "ok"
 	switch {
 	case nOK > 0 && nErr > 0:
 		outcome = "split"
 		res.Violate(fmt.Sprintf("C12/outcome-differs/%s/%s", kind, h.Regime),
-			fmt.Sprintf("%d of %d runs on equal input succeeded and %d failed", nOK, c12K, nErr),
+			fmt.Sprintf("%d of %d runs on equal input succeeded and %d failed", nOK, len(obs), nErr),
 			detail(map[string]any{"first_error": fmt.Sprint(firstErr(runs))}))
 	case nErr > 0:
 		outcome = "all-fail"
 		res.Add("inputs_all_runs_fail", 1)
 	default:
-		// identical results
-		for k := 1; k < c12K; k++ {
-			if dumps[k] != dumps[0] {
+		// identical results, whatever ran in between and whether the input was cloned or rebuilt
+		for k := 1; k < len(obs); k++ {
+			if obs[k].dump != obs[0].dump {
 				i, us := c12FirstDiffering(h, runs[0], runs[k])
-				key := enumKey
-				if key == "" {
-					key = c12Shape(h, i, us)
+				what := "update lists / annotations"
+				if c12OnlyOrientation(h, runs[0], runs[k]) {
+					what = "Member.Orientation only"
 				}
-				res.Violate("C12/nondeterministic/"+key,
-					fmt.Sprintf("run %d differs from run 0 on equal input (map orders %q vs %q): %s", k, runs[0].Order, runs[k].Order, eq.Diff(dumps[0], dumps[k])),
-					detail(map[string]any{"run0": runs[0].Observed(), "runK": runs[k].Observed()}))
+				how := "clone of the first build"
+				if obs[k].fresh {
+					how = "independently rebuilt equal input"
+				}
+				res.Violate("C12/nondeterministic/"+shapeOf(i, us),
+					fmt.Sprintf("run %d (%s, call %d of the session) differs from run 0 (call %d) on equal input in %s (map orders %q vs %q): %s",
+						k, how, obs[k].seqNo, obs[0].seqNo, what, runs[0].Order, runs[k].Order, eq.Diff(obs[0].dump, obs[k].dump)),
+					detail(map[string]any{"run0": c12Trim(runs[0].Observed()), "runK": c12Trim(runs[k].Observed())}))
 				break
 			}
 		}
-		// order of every update list (all runs: a scrambled list may appear only under some map orders)
+		// order of every update list as it was when the call returned
 		reported := false
-		for k := 0; k < c12K && !reported; k++ {
+		for k, o := range obs {
 			for i := range h.Parents {
-				var us osm.Updates
-				if h.Way {
-					us = runs[k].Ways[i].Updates
-				} else {
-					us = runs[k].Relations[i].Updates
-				}
-				if len(us) > maxUpd {
-					maxUpd = len(us)
-				}
-				cnt := map[[2]int64]int{}
-				for _, u := range us {
-					kk := [2]int64{int64(u.Index), u.Timestamp.Unix()}
-					cnt[kk]++
-					if cnt[kk] > sameSecond {
-						sameSecond = cnt[kk]
-					}
+				if o.nUpd[i] > maxUpd {
+					maxUpd = o.nUpd[i]
 				}
 				res.Add("update_lists_checked", 1)
-				if f := hist.OrderFinding(us); f != "" {
-					key := enumKey
-					if key == "" {
-						key = c12Shape(h, i, us)
+				if o.order[i] != "" && !reported {
+					var us osm.Updates
+					if h.Way {
+						us = runs[k].Ways[i].Updates
+					} else {
+						us = runs[k].Relations[i].Updates
 					}
-					res.Violate("C12/order/"+key,
-						fmt.Sprintf("parent version %d, run %d: update list not ordered by (index, time, version): %s; list: %s", h.Parents[i].Version, k, f, hist.UpdatesText(us)),
-						detail(map[string]any{"observed": runs[k].Observed()}))
+					later := "the list is still unordered now"
+					if hist.OrderFinding(us) == "" {
+						later = "the same list is ordered now: it was still being modified after the call returned"
+					}
+					res.Violate("C12/order/"+shapeOf(i, us),
+						fmt.Sprintf("parent version %d, run %d: update list (%d updates) not ordered by (index, time, version) when the call returned: %s (%s); list at return: %s",
+							h.Parents[i].Version, k, o.nUpd[i], o.order[i], later, o.listTx[i]),
+						detail(nil))
 					reported = true
-					break
+				}
+			}
+		}
+		for i := range h.Parents {
+			var us osm.Updates
+			if h.Way {
+				us = runs[0].Ways[i].Updates
+			} else {
+				us = runs[0].Relations[i].Updates
+			}
+			cnt := map[[2]int64]int{}
+			for _, u := range us {
+				kk := [2]int64{int64(u.Index), u.Timestamp.Unix()}
+				cnt[kk]++
+				if cnt[kk] > sameSecond {
+					sameSecond = cnt[kk]
 				}
 			}
 		}
@@ -185,18 +303,69 @@ func c12One(res *fw.Result, h *hist.H, inputID string, enumKey string) {
 	if maxUpd > 12 {
 		res.Add("inputs_with_more_than_12_updates", 1)
 	}
+	if maxUpd >= 128 {
+		res.Add("inputs_with_128_or_more_updates", 1)
+	}
 	if sameSecond > 1 {
 		res.Add("inputs_with_same_second_versions_in_updates", 1)
+	}
+	if h.Polygon && outcome == "ok" {
+		res.Add("polygon_relation_inputs_ok", 1)
+		if c12HasUnresolvedWayMember(h, runs[0]) {
+			res.Add("polygon_inputs_with_unresolved_way_member", 1)
+		}
 	}
 	ord := "1"
 	if len(orders) > 1 {
 		ord = "n"
 	}
-	big := "small"
-	if maxUpd > 12 {
-		big = "big"
+	poly := ""
+	if h.Polygon {
+		poly = "/polygon"
 	}
-	res.Eval(fmt.Sprintf("%s/%s/eps%d/p%d/c%d/%s/orders=%s/%s/same=%s", kind, h.Regime, h.Eps, len(h.Parents), len(h.Children), outcome, ord, big, c12Bucket(sameSecond)))
+	res.Eval(fmt.Sprintf("%s/%s/eps%d/p%d/c%d/%s/orders=%s/%s/same=%s%s", kind, h.Regime, h.Eps, len(h.Parents), c12Bucket10(len(h.Children)), outcome, ord, c12SizeClass(maxUpd), c12Bucket(sameSecond), poly))
+}
+
+func c12Bucket10(n int) int {
+	if n > 10 {
+		return 10 + (n-10)/10*10
+	}
+	return n
+}
+
+func c12Trim(lines []string) []string {
+	out := make([]string, len(lines))
+	for i, l := range lines {
+		if len(l) > 2000 {
+			l = l[:2000] + " ..."
+		}
+		out[i] = l
+	}
+	return out
+}
+
+// c12OnlyOrientation: two runs differ only in Member.Orientation.
+func c12OnlyOrientation(h *hist.H, a, b *hist.Run) bool {
+	if h.Way {
+		return false
+	}
+	skip := eq.Options{SkipFields: map[string]bool{"Member.Orientation": true}}
+	return eq.DumpWith(a.Relations, skip) == eq.DumpWith(b.Relations, skip)
+}
+
+// c12HasUnresolvedWayMember: some way member of a visible version was left without annotation.
+func c12HasUnresolvedWayMember(h *hist.H, run *hist.Run) bool {
+	for i, rel := range run.Relations {
+		if !h.Parents[i].Visible {
+			continue
+		}
+		for j, m := range rel.Members {
+			if m.Type == osm.TypeWay && (m.Version == 0 || h.Parents[i].Refs[j].Pre && m.Version >= hist.PreVersion) {
+				return true
+			}
+		}
+	}
+	return false
 }
 
 func firstErr(runs []*hist.Run) error {
@@ -244,6 +413,7 @@ func c12Exec(c fw.Case) *fw.Result {
 		res.Sample = map[string]any{"history": h}
 	case "random":
 		n := int(c.Int("n"))
+		var ins []c12Input
 		for k := 0; k < n; k++ {
 			r := gen.New(gen.Sub(c.Seed, "c12h", k), "c12")
 			reg := hist.Commit
@@ -271,11 +441,66 @@ func c12Exec(c fw.Case) *fw.Result {
 				h.MixSec = h.Parents[r.Intn(len(h.Parents))].Sec + r.Int64Range(-100, 100)
 				h.IgnoreInc = r.Chance(0.7)
 			}
-			c12One(res, h, fmt.Sprintf("%x-%d", c.Seed, k), "")
+			ins = append(ins, c12Input{h: h, id: fmt.Sprintf("%x-%d", c.Seed, k)})
 			if k == 0 {
 				res.Sample = map[string]any{"history": h}
 			}
 		}
+		c12Session(res, ins, gen.New(c.Seed, "c12session"))
+	case "polygon":
+		// multipolygon / boundary relations over way members (arcs of one ring, located nodes) in
+		// outer/inner roles, with member ways that are missing, deleted or filtered out in some
+		// versions, under every option combination
+		n := int(c.Int("n"))
+		modes := []string{"ignore", "missing", "filter", "any", "deletes", "clean"}
+		var ins []c12Input
+		for k := 0; k < n; k++ {
+			r := gen.New(gen.Sub(c.Seed, "c12p", k), "c12poly")
+			reg := hist.Commit
+			if r.Chance(0.5) {
+				reg = hist.Stamp
+			}
+			mode := modes[(k+int(c.Int("shift")))%len(modes)]
+			h := hist.Generate(r, hist.Params{Polygon: true, Regime: reg, Eps: hist.Thresholds[r.Intn(len(hist.Thresholds))], Mode: mode, MaxParents: 5, MaxChildren: 8, MaxVers: 6})
+			switch mode {
+			case "missing":
+				h.IgnoreMissing = r.Chance(0.85)
+				h.IgnoreInc = r.Chance(0.6)
+			case "deletes", "any":
+				h.IgnoreInc = r.Chance(0.8)
+				if mode == "any" {
+					h.IgnoreMissing = r.Chance(0.7)
+				}
+			case "filter":
+				h.IgnoreInc = r.Chance(0.5)
+				h.IgnoreMissing = h.IgnoreMissing || r.Chance(0.5)
+			}
+			ins = append(ins, c12Input{h: h, id: fmt.Sprintf("%x-p%d", c.Seed, k)})
+			if k == 0 {
+				res.Sample = map[string]any{"history": h}
+			}
+		}
+		c12Session(res, ins, gen.New(c.Seed, "c12session"))
+	case "big":
+		// parent versions with 100-2000 updates
+		r := gen.New(c.Seed, "c12big")
+		reg := hist.Commit
+		if c.Int("stamp") == 1 {
+			reg = hist.Stamp
+		}
+		var ins []c12Input
+		for k := 0; k < int(c.Int("n")); k++ {
+			target := int(c.Int("target"))
+			if k > 0 {
+				target = r.Range(100, 2000)
+			}
+			h := hist.Big(r, c.Int("way") == 1, reg, c.Str("shape"), target)
+			ins = append(ins, c12Input{h: h, id: fmt.Sprintf("%x-b%d", c.Seed, k)})
+			if k == 0 {
+				res.Sample = map[string]any{"shape": h.Shape(), "target_updates": target, "parent_refs": len(h.Parents[0].Refs)}
+			}
+		}
+		c12Session(res, ins, gen.New(c.Seed, "c12session"))
 	}
 	return res
 }
@@ -302,6 +527,31 @@ func c12Cases(tier string, seed uint64) []fw.Case {
 				}
 			}
 		}
+	}
+	// polygon relations with unresolvable way members; big update lists (a subset under -race)
+	nPoly, perPoly, nBig, perBig, nRace := 6, int64(12), 16, int64(2), 4
+	if tier == "thorough" {
+		nPoly, perPoly, nBig, perBig, nRace = 120, 24, 96, 4, 12
+	}
+	for i := 0; i < nPoly; i++ {
+		cs = append(cs, fw.Case{Kind: "polygon", Seed: gen.Sub(seed, "c12poly", i), P: map[string]int64{"n": perPoly, "shift": int64(i)}})
+	}
+	targets := []int64{100, 127, 128, 129, 135, 200, 256, 400, 700, 1000, 1500, 2000}
+	for i := 0; i < nBig+nRace; i++ {
+		shape := "children"
+		if i%2 == 1 {
+			shape = "indexes"
+		}
+		c := fw.Case{Kind: "big", Seed: gen.Sub(seed, "c12big", i), S: map[string]string{"shape": shape},
+			P: map[string]int64{"n": perBig, "target": targets[i%len(targets)], "way": int64((i / 2) % 2), "stamp": int64((i / 4) % 2)}}
+		if i >= nBig {
+			c.Variant = "race"
+			c.P["target"] = targets[(4+i)%len(targets)]
+		}
+		cs = append(cs, c)
+	}
+	if tier == "thorough" {
+		cs = append(cs, fw.Case{Kind: "polygon", Variant: "race", Seed: gen.Sub(seed, "c12poly-race", 0), P: map[string]int64{"n": perPoly, "shift": 0}})
 	}
 	for i := 0; i < nCases; i++ {
 		mode := "burst"
@@ -330,7 +580,8 @@ func init() {
 			"map iteration orders are sampled by repetition (12 runs); orders that did not occur are not covered",
 			"equal timestamps are compared as instants; a list ordered by (index, time) whose equal-(index,time) runs have non-decreasing versions is accepted whatever the order of other fields",
 		},
-		Cases: c12Cases,
-		Exec:  c12Exec,
+		Cases:           c12Cases,
+		Exec:            c12Exec,
+		RaceIsViolation: true,
 	})
 }
